@@ -313,6 +313,92 @@ def run(tier, seed):
         if why:
             fails += 1
             rep.violation("decorator:direct-use", {"why": why})
+    # the body's own exception leaves the call unchanged, also when its type is a subclass of one the implementation
+    # singles out; compared with contextlib.asynccontextmanager used as a decorator
+    import contextlib as _cl
+    from gencalc import drive as _drive
+
+    class _StopAsyncSub(StopAsyncIteration):
+        pass
+
+    class _RuntimeSub(RuntimeError):
+        pass
+
+    class _StopIterSub(StopIteration):
+        pass
+
+    for exc_t in (_StopAsyncSub, _RuntimeSub, StopAsyncIteration, RuntimeError, KeyError, _StopIterSub):
+        for handles in (False, True):
+            def one(lib):
+                events = []
+
+                @lib
+                async def ctx():
+                    events.append("enter")
+                    if handles:
+                        try:
+                            yield
+                        finally:
+                            events.append("exit")
+                    else:
+                        yield
+                        events.append("exit")
+                err = exc_t("from the body")
+
+                @ctx()
+                async def fn():
+                    raise err
+                out = []
+                for _ in range(2):
+                    try:
+                        _drive(fn())
+                        out.append("returned")
+                    except BaseException as e:  # noqa
+                        out.append("same object" if e is err else "%s: %s" % (type(e).__name__, e))
+                return out, events
+            ra, rs = one(a.contextmanager), one(_cl.asynccontextmanager)
+            rep.count(("body-exception", exc_t.__name__, handles), True)
+            if ra != rs:
+                fails += 1
+                rep.violation("decorator:body-exception", {"why": "a body raising %s (generator %s): asyncstdlib %r contextlib %r" % (
+                    exc_t.__name__, "with try/finally" if handles else "plain", ra, rs)})
+    # a class-based decorator that provides fresh single-use instances through _recreate_cm; the instances are falsy
+    for falsy in (False, True):
+        made = []
+
+        class Fresh(acl.ContextDecorator):
+            def __init__(s, template=False):
+                s.template, s.entered, s.exited = template, 0, 0
+                made.append(s)
+
+            def __len__(s):
+                return 0 if falsy else 1
+
+            def _recreate_cm(s):
+                return Fresh()
+
+            async def __aenter__(s):
+                if s.entered:
+                    raise RuntimeError("instance entered twice")
+                s.entered += 1
+
+            async def __aexit__(s, *exc):
+                s.exited += 1
+                return False
+
+        @Fresh(template=True)
+        async def fresh_fn(x):
+            return x
+        try:
+            res = [_drive(fresh_fn(i)) for i in range(3)]
+            used = [(m.template, m.entered, m.exited) for m in made]
+            why = None if res == [0, 1, 2] and used == [(True, 0, 0)] + [(False, 1, 1)] * 3 else "results %r, instances (template?, entered, exited) %r" % (res, used)
+        except BaseException as e:  # noqa
+            why = "call failed: %r" % (e,)
+        rep.count(("fresh-instances", falsy), True)
+        if why:
+            fails += 1
+            rep.violation("decorator:fresh-instances", {"why": "class-based decorator with _recreate_cm (%s instances): %s" % ("falsy" if falsy else "truthy", why)})
     # repeated sequential calls
     for n in (1, 4, 7):
         cfg = {"generator": True, "se": 1, "sb": 1, "sx": 1, "suppress": False, "raises": [i % 3 == 1 for i in range(n)]}
